@@ -56,46 +56,139 @@ def grid(rng, pool, hmax=5, wmax=5, hmin=1, wmin=1):
 # each: gen(rng) -> case (json-able dict); line(case) -> driver arguments; real(case) -> list of reply fields
 
 def gen_cpu_bin(rng):
-    k = rng.randint(1, 7)
-    kind = rng.random()
-    if kind < 0.7:
-        bins = sorted(rng.sample(range(-6, 14), k))
-    elif kind < 0.85:
-        bins = sorted(rng.choice(range(-3, 8)) for _ in range(k))          # duplicates
+    """`_cpu_bin(data, bins, new_values)`: bin lists of every kind the binary search can meet -- strictly ascending,
+    ties (runs of equal bounds), not ascending, -inf / +inf ends, NaN bounds (first / inner / last: the `bins[mid-1]`
+    read at `mid = 0` wraps around only then), one bin, long lists (17..130 bounds: many loop iterations), no bins
+    at all (only with a raster that has no finite cell -- otherwise the real code reads out of bounds); cells on
+    the bounds, just beside them, half way between, below / above all of them, NaN, +-inf, -0.0; rasters of every
+    small shape including empty ones, float32 and float64; `new_values` as long as `bins` or longer.  All numbers
+    are small dyadic fractions (exact in float32).  The driver gets `fuel = nbins + 1`: the bound of the
+    refinement theorem (Props/C12.lean: generated_cpu_bin_refines) is exercised, not a generous default."""
+    u = rng.random()
+    cls = ("asc" if u < 0.34 else "ties" if u < 0.49 else "unsorted" if u < 0.60 else "inf" if u < 0.73
+           else "nan" if u < 0.81 else "long" if u < 0.95 else "one" if u < 0.98 else "nobins")
+    den = rng.choice([1, 1, 2, 4])
+    if cls == "long":
+        k = rng.choice([17, 31, 32, 33, 64, 65, 100, 127, 130, rng.randint(17, 130)])
+        step = rng.choice([1, 1, 2, 3])
+        lo = rng.randint(-40, 5)
+        bins, x = [], lo
+        for _ in range(k):
+            bins.append(x)
+            x += rng.choice([0, step, step, step, 2 * step]) if rng.random() < 0.5 else step
+    elif cls == "one":
+        bins = [rng.randint(-4, 9)]
+    elif cls == "nobins":
+        bins = []
     else:
-        bins = [rng.choice(range(-3, 8)) for _ in range(k)]                # not ascending
-    bins = [b / rng.choice([1, 1, 2]) for b in bins]
-    pool = [NAN, INF, -INF] + [b for b in bins] * 2 + [b + 0.5 for b in bins] + [b - 0.25 for b in bins] + [-50, 50]
-    data = grid(rng, pool, 3, 4)
-    new_values = [float(rng.randint(-9, 9)) for _ in range(k)]
-    return dict(data=data.tolist(), bins=bins, new_values=new_values)
+        k = rng.choice([1, 2, 2, 3, 3, 4, 5, 6, 7, 8, 9, 12])
+        if cls == "asc":
+            bins = sorted(rng.sample(range(-8, 16), k))
+        elif cls == "ties":
+            bins = sorted(rng.choice(range(-3, 3 + max(1, k // 2))) for _ in range(k))
+        elif cls == "unsorted":
+            bins = [rng.choice(range(-3, 9)) for _ in range(k)]
+        elif cls == "inf":
+            bins = sorted(rng.sample(range(-8, 16), k))
+            w = rng.random()
+            if w < 0.45 or k == 1:
+                bins[-1] = INF
+            elif w < 0.7:
+                bins[0] = -INF
+            elif w < 0.9:
+                bins[0], bins[-1] = -INF, INF
+            else:                                  # several infinite bounds
+                bins[-1] = INF
+                bins[-2] = INF
+                if k > 2 and rng.random() < 0.5:
+                    bins[0] = -INF
+            if rng.random() < 0.1:
+                bins[rng.randrange(k)] = rng.choice([INF, -INF])     # an infinite bound out of order
+        else:                                      # nan
+            bins = sorted(rng.sample(range(-8, 16), k))
+            w = rng.random()
+            pos = 0 if w < 0.4 else (k - 1 if w < 0.65 else rng.randrange(k))
+            bins[pos] = NAN
+            if rng.random() < 0.15:
+                bins[rng.randrange(k)] = NAN
+    bins = [b / den if b == b and abs(b) != INF else b for b in bins]
+    fin = [b for b in bins if b == b and abs(b) != INF]
+    pool = [NAN, INF, -INF, -0.0, 0.0, -500.0, 500.0]
+    for b in fin:
+        pool += [b, b, b, b + 0.5 / den, b - 0.5 / den, b + 0.125, b - 0.125]
+    for a, b in zip(fin, fin[1:]):
+        pool.append((a + b) / 2)
+    if fin:
+        pool += [min(fin) - 1, max(fin) + 1, min(fin), max(fin)] * 2
+    if cls == "nobins":
+        pool = [NAN, INF, -INF]
+    if rng.random() < 0.06:
+        h, w = rng.choice([(0, 0), (0, 3), (2, 0), (0, 1), (1, 0)])
+    elif cls == "long":
+        h, w = rng.randint(1, 3), rng.randint(2, 6)
+    else:
+        h, w = rng.randint(1, 4), rng.randint(1, 5)
+    data = np.array(pick_vals(rng, pool, h * w), dtype=np.float64).reshape(h, w)
+    nv_len = len(bins) + (rng.choice([1, 2, 5]) if rng.random() < 0.12 else 0)
+    nv_pool = [float(v) for v in range(-9, 10)] + [0.5, -2.25, 100.0, 1024.0]
+    if rng.random() < 0.1:
+        nv_pool += [NAN, INF, -INF]
+    new_values = [rng.choice(nv_pool) for _ in range(nv_len)] if rng.random() < 0.5 else \
+        [float(i) for i in range(nv_len)]
+    return dict(data=data.tolist(), shape=[h, w], bins=bins, new_values=new_values, cls=cls,
+                ddt=rng.choice(["float64", "float64", "float32"]))
+
+
+def _cpu_bin_data(c):
+    shape = c.get("shape") or list(np.asarray(c["data"]).shape)
+    return np.array(c["data"], dtype=np.float64).reshape(shape)
 
 
 def line_cpu_bin(c):
-    return f"af.data={farr(c['data'])} af.bins={farr(c['bins'])} af.new_values={farr(c['new_values'])}"
+    fuel = f" fuel={len(c['bins']) + 1}" if "cls" in c else ""
+    return (f"af.data={farr(_cpu_bin_data(c))} af.bins={farr(c['bins'])} af.new_values={farr(c['new_values'])}"
+            + fuel)
 
 
 def real_cpu_bin(c):
     f = mod("xrspatial.classify")._cpu_bin
-    data = np.array(c["data"], dtype=np.float64)
+    data = _cpu_bin_data(c).astype(c.get("ddt", "float64"))
     bins = np.array(c["bins"], dtype=np.float64)
     nv = np.array(c["new_values"], dtype=np.float64)
-    d0, b0, n0 = data.copy(), bins.copy(), nv.copy()
     out = f(data, bins, nv)
     return ["ret", farr(out), farr(data), farr(bins), farr(nv)]
 
 
 def gen_strides(rng):
-    nz = rng.randint(0, 5)
-    uz = sorted(rng.sample(range(-3, 9), nz))
+    """sorted runs (the contract of `_sort_and_stride`) plus everything the bare function accepts: ids absent from the
+    array, values absent from the ids (in front, between, as a tail), NaN / +-inf on either side (`==` is IEEE), repeated
+    and unsorted ids, unsorted arrays, empty arrays"""
+    pool = rng.choice([list(range(-3, 9)), [-2.5, -0.75, 0.0, 0.5, 1.5, 2.25, 3.0, 7.0], [0.0, 1.0, 2.0, 3.0, 4.0]])
+    nz = rng.randint(0, min(6, len(pool)))
+    uz = sorted(rng.sample(pool, nz))
     kind = rng.random()
     fz = []
     for u in uz:
-        fz += [u] * rng.choice([0, 1, 1, 2, 3])
-    if kind < 0.25:
-        fz += [rng.choice(range(9, 12))] * rng.randint(0, 2)       # sorted tail of values not in uz
+        fz += [u] * rng.choice([0, 1, 1, 2, 3, 5])
+    if kind < 0.15:
+        fz += [max(pool) + 1 + rng.randint(0, 2)] * rng.randint(0, 3)        # sorted tail of values not in uz
+    elif kind < 0.3:
+        fz += [INF] * rng.randint(0, 2) + [NAN] * rng.randint(1, 3)          # non-finite tail (not stripped)
     elif kind < 0.4:
-        rng.shuffle(fz)                                            # contract broken: not sorted
+        rng.shuffle(fz)                                                      # contract broken: not sorted
+    elif kind < 0.5:
+        fz = [min(pool) - 1.0] * rng.randint(1, 2) + fz                      # a leading run that matches no id
+    elif kind < 0.6 and uz:
+        k = rng.randrange(len(uz))                                           # an id is dropped: its run blocks the pointer
+        uz = uz[:k] + uz[k + 1:]
+    elif kind < 0.7:
+        uz = uz + [rng.choice([NAN, INF, -INF])]                             # a non-finite id
+        if rng.random() < 0.5:
+            fz = fz + [uz[-1]] * rng.randint(1, 2)
+    elif kind < 0.8 and uz:
+        uz = uz + [rng.choice(uz)]                                           # repeated / unsorted ids
+        if rng.random() < 0.5:
+            rng.shuffle(uz)
     return dict(fz=[float(v) for v in fz], uz=[float(v) for v in uz])
 
 
@@ -110,54 +203,131 @@ def real_strides(c):
     return ["ret", iarr(out), farr(fz), farr(uz)]
 
 
+def _shape(rng, hmax=7, wmax=7):
+    """raster shape classes: empty (0 rows / 0 columns), single row / column / cell, general"""
+    k = rng.random()
+    if k < 0.06:
+        return rng.choice([(0, 0), (0, rng.randint(1, 4)), (rng.randint(1, 4), 0)])
+    if k < 0.16:
+        return 1, rng.randint(1, wmax)
+    if k < 0.26:
+        return rng.randint(1, hmax), 1
+    return rng.randint(1, hmax), rng.randint(1, wmax)
+
+
+def _box(rng, h, w):
+    """a target window; each raster border is touched or not with probability 1/2"""
+    def axis(n):
+        lo = 0 if (rng.random() < 0.5 or n == 1) else rng.randrange(1, n)
+        hi = n - 1 if (rng.random() < 0.5 or lo >= n - 1) else rng.randrange(lo, n - 1)
+        return lo, hi
+    return axis(h) + axis(w)
+
+
+def _scan_grid(rng, h, w, hit_vals, miss_vals):
+    """h x w grid for the four scans: hits inside a box touching a random subset of the borders / a single hit
+    (corners included) / no hit / only hits / random"""
+    if h == 0 or w == 0:
+        return np.zeros((h, w), dtype=np.float64), "empty-raster"
+    hit_vals, miss_vals = hit_vals or miss_vals, miss_vals or hit_vals
+    mode = rng.choice(["box", "box", "box", "single", "none", "all", "random"])
+    g = np.array([rng.choice(miss_vals) for _ in range(h * w)], dtype=np.float64).reshape(h, w)
+    if mode == "all":
+        g = np.array([rng.choice(hit_vals) for _ in range(h * w)], dtype=np.float64).reshape(h, w)
+    elif mode == "random":
+        g = np.array([rng.choice(hit_vals + miss_vals) for _ in range(h * w)], dtype=np.float64).reshape(h, w)
+    elif mode == "single":
+        y = rng.choice([0, h - 1, rng.randrange(h)])
+        x = rng.choice([0, w - 1, rng.randrange(w)])
+        g[y, x] = rng.choice(hit_vals)
+    elif mode == "box":
+        t, b, l, r = _box(rng, h, w)
+        cells = {(t, rng.randrange(l, r + 1)), (b, rng.randrange(l, r + 1)),
+                 (rng.randrange(t, b + 1), l), (rng.randrange(t, b + 1), r)}
+        for y in range(t, b + 1):
+            for x in range(l, r + 1):
+                if rng.random() < 0.25:
+                    cells.add((y, x))
+        for (y, x) in cells:
+            g[y, x] = rng.choice(hit_vals)
+    return g, mode
+
+
+def _shape_class(h, w):
+    return "0xN" if h == 0 or w == 0 else "1x1" if h * w == 1 else "1xN" if h == 1 else "Nx1" if w == 1 else "HxW"
+
+
+TRIM_POOL = [NAN, 0.0, -0.0, 1.0, 2.0, INF, -INF, -1.5, 0.5]
+TRIM_LISTS = [[NAN], [NAN], [0.0], [NAN, 0.0], [], [1.0, NAN], [INF, 0.0, NAN], [2.0], [NAN, NAN], [0.0, 0.0, 1.0],
+              [-INF], [-0.0], [0.5, -1.5], [7.0], [0.0, 1.0, 2.0, INF, -INF, NAN, -1.5, 0.5], [1.0, 0.0, NAN, 2.0]]
+
+
 def gen_trim(rng):
-    pool = [NAN, 0.0, 0.0, 1.0, 2.0, INF, -1.5]
-    kind = rng.random()
-    data = grid(rng, pool, 5, 5)
-    if kind < 0.35:                       # mostly excluded values with a few kept cells
-        data[:] = rng.choice([NAN, 0.0])
-        for _ in range(rng.randint(0, 3)):
-            data[rng.randrange(data.shape[0]), rng.randrange(data.shape[1])] = rng.choice([1.0, 2.0, INF])
-    ex = rng.choice([[NAN], [0.0], [NAN, 0.0], [], [1.0, NAN], [INF, 0.0, NAN], [2.0]])
-    return dict(data=data.tolist(), ex=ex)
+    ex = rng.choice(TRIM_LISTS)
+    def listed(v):
+        return any(e == v or (e != e and v != v) for e in ex)
+    miss = [v for v in TRIM_POOL if listed(v)]
+    hit = [v for v in TRIM_POOL if not listed(v)]
+    h, w = _shape(rng)
+    g, mode = _scan_grid(rng, h, w, hit, miss)
+    return dict(data=g.tolist(), shape=[h, w], ex=ex, tags=[f"shape:{_shape_class(h, w)}", f"mode:{mode}",
+                                                            f"list:{len(ex)}"])
+
+
+def _data(c):
+    a = np.array(c["data"], dtype=np.float64)
+    return a.reshape(c["shape"]) if "shape" in c else a
 
 
 def line_trim(c):
-    return f"af.data={farr(c['data'])} af.excludes={farr(c['ex'])}"
+    return f"af.data={farr(_data(c))} af.excludes={farr(c['ex'])}"
 
 
 def real_trim(c):
     f = mod("xrspatial.zonal")._trim
-    data, ex = np.array(c["data"], dtype=np.float64), np.array(c["ex"], dtype=np.float64)
+    data, ex = _data(c), np.array(c["ex"], dtype=np.float64)
     t = f(data, ex)
     return ["ret"] + [str(int(v)) for v in t] + [farr(data), farr(ex)]
 
 
+CROP_POOL = [0.0, -0.0, 1.0, 2.0, 3.0, NAN, INF, 5.0, -1.0]
+CROP_LISTS = [[1.0], [2.0, 1.0], [3.0], [1.0, 2.0, 3.0], [5.0], [], [0.0], [NAN], [3.0, 1.0], [INF], [NAN, 1.0],
+              [-0.0], [7.0], [1.0, 1.0], [-1.0, 0.0], [9.0, NAN, 2.0]]
+
+
 def gen_crop(rng):
-    pool = [0.0, 0.0, 1.0, 2.0, 3.0, NAN]
-    data = grid(rng, pool, 5, 5)
-    if rng.random() < 0.3:
-        data[:] = 0.0
-        for _ in range(rng.randint(0, 3)):
-            data[rng.randrange(data.shape[0]), rng.randrange(data.shape[1])] = rng.choice([1.0, 2.0, 3.0])
-    vals = rng.choice([[1.0], [2.0, 1.0], [3.0], [1.0, 2.0, 3.0], [5.0], [], [0.0], [NAN], [3.0, 1.0]])
-    return dict(data=data.tolist(), values=vals)
+    vals = rng.choice(CROP_LISTS)
+    hit = [v for v in CROP_POOL if any(e == v for e in vals)]
+    miss = [v for v in CROP_POOL if not any(e == v for e in vals)]
+    h, w = _shape(rng)
+    g, mode = _scan_grid(rng, h, w, hit, miss)
+    return dict(data=g.tolist(), shape=[h, w], values=vals, tags=[f"shape:{_shape_class(h, w)}", f"mode:{mode}",
+                                                                  f"list:{len(vals)}"])
 
 
 def line_crop(c):
-    return f"af.data={farr(c['data'])} af.values={farr(c['values'])}"
+    return f"af.data={farr(_data(c))} af.values={farr(c['values'])}"
 
 
 def real_crop(c):
     f = mod("xrspatial.zonal")._crop
-    data, vals = np.array(c["data"], dtype=np.float64), np.array(c["values"], dtype=np.float64)
+    data, vals = _data(c), np.array(c["values"], dtype=np.float64)
     t = f(data, vals)
     return ["ret"] + [str(int(v)) for v in t] + [farr(data), farr(vals)]
 
 
 def gen_not_crossable(rng):
-    b = [rng.choice([0.0, 1.0, 2.0, 3.0, NAN, INF]) for _ in range(rng.randint(0, 3))]
-    return dict(v=rng.choice([NAN, 0.0, 1.0, 2.0, 5.0, INF, -INF]), barriers=b)
+    # value classes: NaN, +-0, small numbers, +-inf; barrier lists: empty, duplicates, NaN / +-inf entries, the value
+    # first / last / absent, up to 6 entries
+    pool = [0.0, -0.0, 1.0, 2.0, 3.0, 0.5, -1.0, NAN, INF, -INF]
+    b = [rng.choice(pool) for _ in range(rng.choice([0, 0, 1, 1, 2, 3, 6]))]
+    v = rng.choice([NAN, 0.0, -0.0, 1.0, 2.0, 5.0, 0.5, INF, -INF])
+    k = rng.random()
+    if b and k < 0.2 and v == v:
+        b[-1] = v
+    elif b and k < 0.3 and v == v:
+        b[0] = v
+    return dict(v=v, barriers=b)
 
 
 def line_not_crossable(c):
@@ -171,7 +341,9 @@ def real_not_crossable(c):
 
 
 def gen_inside(rng):
-    return dict(py=rng.randint(-2, 6), px=rng.randint(-2, 6), h=rng.randint(0, 5), w=rng.randint(0, 5))
+    h, w = rng.randint(0, 5), rng.randint(0, 5)
+    edge = lambda n: rng.choice([-1, 0, n - 1, n, n + 1, rng.randint(-2, 6)])
+    return dict(py=edge(h), px=edge(w), h=h, w=w)
 
 
 def line_inside(c):
@@ -184,11 +356,19 @@ def real_inside(c):
 
 
 def gen_min_cost(rng):
-    h, w = rng.randint(1, 4), rng.randint(1, 4)
+    # classes: mixed; every cost >= the initial bound (h+w)^2 (-> (NONE, NONE)); ties of the minimum (first wins);
+    # NaN / +-inf / negative costs; nothing open; everything open
+    h, w = rng.randint(1, 6), rng.randint(1, 6)
     big = (h + w) ** 2
-    pool = [0.0, 1.0, 1.0, 2.5, 3.0, float(big), float(big + 1), float(big) - 0.5, NAN, INF]
+    kind = rng.choice(["mixed", "mixed", "above", "ties", "nan", "neg"])
+    pool = {"mixed": [0.0, 1.0, 1.0, 2.5, 3.0, float(big), float(big + 1), float(big) - 0.5, NAN, INF],
+            "above": [float(big), float(big + 1), float(big) + 0.5, INF, NAN, float(2 * big)],
+            "ties": [1.0, 1.0, 1.0, 2.0, float(big)],
+            "nan": [NAN, NAN, NAN, 1.0, float(big) - 0.5, INF],
+            "neg": [-1.0, -2.5, 0.0, -0.0, -INF, 1.0, NAN]}[kind]
     cost = np.array(pick_vals(rng, pool, h * w)).reshape(h, w)
-    is_open = np.array([rng.random() < rng.choice([0.2, 0.6, 1.0]) for _ in range(h * w)]).reshape(h, w)
+    p = rng.choice([0.0, 0.2, 0.6, 1.0])
+    is_open = np.array([rng.random() < p for _ in range(h * w)]).reshape(h, w)
     return dict(cost=cost.tolist(), is_open=is_open.astype(int).tolist())
 
 
@@ -205,13 +385,30 @@ def real_min_cost(c):
 
 
 def gen_nearest(rng):
-    data = grid(rng, [0.0, 1.0, 1.0, 2.0, NAN, NAN, 3.0], 4, 4)
-    if rng.random() < 0.3:
+    # snap classes: the queried cell crossable (returned as is); nothing crossable (-> (NONE, NONE)); one lone
+    # crossable cell (often the far corner); equidistant candidates (row-major tie-breaking); barrier values in the list
+    h, w = rng.randint(1, 6), rng.randint(1, 6)
+    kind = rng.choice(["mixed", "mixed", "none", "lone", "ring", "keep"])
+    pool = [0.0, 1.0, 1.0, 2.0, NAN, NAN, 3.0]
+    data = np.array(pick_vals(rng, pool, h * w), dtype=np.float64).reshape(h, w)
+    py, px = rng.randrange(h), rng.randrange(w)
+    b = [rng.choice([0.0, 1.0, 2.0, 3.0, NAN, INF]) for _ in range(rng.randint(0, 3))]
+    if kind == "none":
+        data[:] = NAN if rng.random() < 0.5 else 2.0
+        if 2.0 not in b:
+            b.append(2.0)
+    elif kind == "lone":
         data[:] = NAN
-        if rng.random() < 0.7:
-            data[rng.randrange(data.shape[0]), rng.randrange(data.shape[1])] = 1.0
-    b = [rng.choice([0.0, 1.0, 2.0, 3.0]) for _ in range(rng.randint(0, 2))]
-    return dict(py=rng.randrange(data.shape[0]), px=rng.randrange(data.shape[1]), data=data.tolist(), barriers=b)
+        y, x = rng.choice([(0, 0), (h - 1, w - 1), (0, w - 1), (h - 1, 0), (rng.randrange(h), rng.randrange(w))])
+        data[y, x] = 5.0
+        py, px = rng.choice([(0, 0), (h - 1, w - 1), (py, px)])
+    elif kind == "ring":
+        # every cell crossable except the queried one: its 4 / 8 neighbours tie
+        data[:] = 5.0
+        data[py, px] = NAN
+    elif kind == "keep":
+        data[py, px] = 7.0
+    return dict(py=py, px=px, data=data.tolist(), barriers=b)
 
 
 def line_nearest(c):
@@ -226,23 +423,60 @@ def real_nearest(c):
 
 
 def gen_astar(rng):
-    h, w = rng.randint(1, 5), rng.randint(1, 5)
+    # classes: random mazes; a wall that cuts the raster (no route); start = goal; blocked start / goal; an island
+    # goal; barrier lists with NaN / inf; custom offset arrays (unequal lengths -> zip truncates, the null offset,
+    # knight moves) -- everything the jitted function accepts
+    h, w = rng.randint(1, 7), rng.randint(1, 7)
+    kind = rng.choice(["maze", "maze", "maze", "wall", "same", "blocked", "island", "open"])
     p = rng.choice([0.0, 0.15, 0.3, 0.5])
+    if kind == "open":
+        p = 0.0
     data = np.array([NAN if rng.random() < p * 0.5 else (0.0 if rng.random() < p else rng.choice([1.0, 2.0, 3.0]))
                      for _ in range(h * w)]).reshape(h, w)
-    b = rng.choice([[], [0.0], [0.0, 3.0], [2.0]])
-    conn = rng.choice([4, 8])
-    return dict(data=data.tolist(), barriers=b, conn=conn, sy=rng.randrange(h), sx=rng.randrange(w),
-                gy=rng.randrange(h), gx=rng.randrange(w))
+    b = rng.choice([[], [0.0], [0.0, 3.0], [2.0], [0.0, NAN], [INF, 0.0]])
+    sy, sx, gy, gx = rng.randrange(h), rng.randrange(w), rng.randrange(h), rng.randrange(w)
+    if kind == "wall" and (h > 2 or w > 2):
+        if h > 2 and (w <= 2 or rng.random() < 0.5):
+            r0 = rng.randrange(1, h - 1)
+            data[r0, :] = NAN if rng.random() < 0.5 else 0.0
+            if 0.0 not in b:
+                b = b + [0.0]
+            sy, gy = rng.randrange(0, r0), rng.randrange(r0 + 1, h)
+        else:
+            c0 = rng.randrange(1, w - 1)
+            data[:, c0] = NAN
+            sx, gx = rng.randrange(0, c0), rng.randrange(c0 + 1, w)
+    elif kind == "same":
+        gy, gx = sy, sx
+    elif kind == "blocked":
+        if rng.random() < 0.5:
+            data[sy, sx] = NAN
+        else:
+            data[gy, gx] = NAN
+    elif kind == "island":
+        for dy in (-1, 0, 1):
+            for dx in (-1, 0, 1):
+                y, x = gy + dy, gx + dx
+                if (dy or dx) and 0 <= y < h and 0 <= x < w:
+                    data[y, x] = NAN
+        data[gy, gx] = 1.0
+    c = dict(data=data.tolist(), barriers=b, conn=rng.choice([4, 8]), sy=sy, sx=sx, gy=gy, gx=gx)
+    if rng.random() < 0.15:
+        n1, n2 = rng.randint(0, 9), rng.randint(0, 9)
+        c["nys"] = [rng.choice([-1, 0, 1, 0, 2, -2]) for _ in range(n1)]
+        c["nxs"] = [rng.choice([-1, 0, 1, 1, 2, -2]) for _ in range(n2)]
+    return c
 
 
-def nbr(conn):
+def nbr(conn, c=None):
+    if c is not None and "nys" in c:
+        return np.asarray(c["nys"], dtype=np.int64), np.asarray(c["nxs"], dtype=np.int64)
     ys, xs = mod("xrspatial.pathfinding")._neighborhood_structure(conn)
     return np.asarray(ys, dtype=np.int64), np.asarray(xs, dtype=np.int64)
 
 
 def line_astar(c):
-    ys, xs = nbr(c["conn"])
+    ys, xs = nbr(c["conn"], c)
     d = np.array(c["data"], dtype=np.float64)
     path = np.full(d.shape, NAN)
     return (f"af.data={farr(d)} af.path_img={farr(path)} i.start_py={c['sy']} i.start_px={c['sx']} "
@@ -252,7 +486,7 @@ def line_astar(c):
 
 def real_astar(c):
     f = mod("xrspatial.pathfinding")._a_star_search
-    ys, xs = nbr(c["conn"])
+    ys, xs = nbr(c["conn"], c)
     d = np.array(c["data"], dtype=np.float64)
     path = np.full(d.shape, NAN)
     b = np.array(c["barriers"], dtype=np.float64)
@@ -261,8 +495,10 @@ def real_astar(c):
 
 
 def gen_reconstruct(rng):
-    # a parent forest that really leads to the start (as _a_star_search builds it), or no path at all
-    h, w = rng.randint(1, 4), rng.randint(1, 4)
+    # a parent forest that really leads to the start (as _a_star_search builds it); goals: a reached cell, the start
+    # itself, an unreached cell (no parent: nothing is written), a cell with only one of the two pointers set
+    # (never a cycle that avoids the start: the real function would not return)
+    h, w = rng.randint(1, 6), rng.randint(1, 6)
     sy, sx = rng.randrange(h), rng.randrange(w)
     py = -np.ones((h, w), dtype=np.int64)
     px = -np.ones((h, w), dtype=np.int64)
@@ -270,12 +506,25 @@ def gen_reconstruct(rng):
     reached = [(sy, sx)]
     cells = [(y, x) for y in range(h) for x in range(w) if (y, x) != (sy, sx)]
     rng.shuffle(cells)
+    deep = rng.random() < 0.4
     for (y, x) in cells[: rng.randint(0, len(cells))]:
-        q = rng.choice(reached)
+        q = reached[-1] if deep else rng.choice(reached)
         py[y, x], px[y, x] = q
         reached.append((y, x))
-    gy, gx = rng.choice(reached) if rng.random() < 0.75 else (rng.randrange(h), rng.randrange(w))
-    cost = np.array([float(rng.randint(0, 9)) / 2 for _ in range(h * w)]).reshape(h, w)
+    k = rng.random()
+    if k < 0.65:
+        gy, gx = reached[-1] if deep else rng.choice(reached)
+    elif k < 0.75:
+        gy, gx = sy, sx
+    else:
+        gy, gx = rng.randrange(h), rng.randrange(w)
+        if (gy, gx) not in reached and rng.random() < 0.5:
+            if rng.random() < 0.5:
+                py[gy, gx] = sy
+            else:
+                px[gy, gx] = sx
+    cost = np.array([rng.choice([float(rng.randint(0, 9)) / 2, NAN, INF]) if rng.random() < 0.1
+                     else float(rng.randint(0, 9)) / 2 for _ in range(h * w)]).reshape(h, w)
     return dict(py=py.tolist(), px=px.tolist(), cost=cost.tolist(), sy=sy, sx=sx, gy=int(gy), gx=int(gx))
 
 
@@ -345,11 +594,26 @@ def real_prox_line(c):
 
 
 def gen_convolve(rng):
-    kh, kw = rng.choice([1, 3, 3, 5]), rng.choice([1, 3, 3, 5])
-    # even kernels are rejected by the public wrapper; the bare kernel then reads out of bounds (undefined
-    # behaviour in numba, `err:index` in the model), so they are not generated
-    data = grid(rng, [0.0, 1.0, 2.0, -1.0, 0.5, NAN, 4.0], 7, 7)
-    kernel = np.array(pick_vals(rng, [0.0, 1.0, 1.0, 2.0, -1.0, 0.5], kh * kw)).reshape(kh, kw)
+    """odd kernel shapes 1..7 (square and not), rasters 1x1..9x9 (kernel smaller than, equal to and larger than the raster
+    in either axis, 1xN / Nx1), small integers and dyadic fractions (exact in float32), NaN and +-inf cells in the raster
+    (`0 * inf`, `inf - inf`), zero / negative / fractional and occasionally NaN / inf weights.
+    Even kernels are rejected by the public wrapper; the bare kernel then reads out of bounds (undefined behaviour in numba,
+    `Ctl.err` in the model: Proofs/ILFocal.lean `convolve2d_even_err`), so they are not generated."""
+    kh, kw = rng.choice([1, 3, 3, 5, 7]), rng.choice([1, 3, 3, 5, 7])
+    kind = rng.random()
+    if kind < 0.55:                      # at least one interior cell
+        h, w = rng.randint(kh, kh + 4), rng.randint(kw, kw + 4)
+    elif kind < 0.7:                     # exactly one interior row / column, or none
+        h, w = rng.choice([kh - 1, kh, kh]), rng.choice([kw - 1, kw, kw])
+    else:
+        h, w = rng.randint(1, 9), rng.randint(1, 9)
+    h, w = max(h, 1), max(w, 1)
+    dpool = rng.choice([[0.0, 1.0, 2.0, -1.0, 0.5, 4.0], [0.0, 1.0, 2.0, -1.0, 0.5, NAN, 4.0],
+                        [1.0, 2.0, 3.0, INF, -INF, NAN, 0.0, -0.25], [1.0]])
+    kpool = rng.choice([[0.0, 1.0, 1.0, 2.0, -1.0, 0.5], [1.0], [0.0, 1.0], [0.25, -0.5, 3.0, 0.0, NAN],
+                        [0.0, 1.0, INF, -2.0]])
+    data = np.array(pick_vals(rng, dpool, h * w), dtype=np.float64).reshape(h, w)
+    kernel = np.array(pick_vals(rng, kpool, kh * kw)).reshape(kh, kw)
     return dict(data=data.tolist(), kernel=kernel.tolist())
 
 
@@ -426,12 +690,194 @@ def real_direction(c):
     return ["ret", fval(f(c["x1"], c["x2"], c["y1"], c["y2"]))]
 
 
+# `_area_connectivity`: the cases are built for the two passes (many provisional labels that merge late, stale
+# captured labels in the merge loop), the clamped windows (1xN, Nx1, borders), the closeness test (values that are
+# close but not equal, asymmetric pairs, +-inf) and the NaN guards; the array handed to the numba function carries a
+# memory layout (`lay`): the generated program sees the logical raster.
+AREA_LAYOUTS = ["C", "C", "F", "T", "strided", "neg", "negrow"]
+# close but not equal: 1 ~ 1.000001 ~ 1.00001 (1.00002 is not); 100000 ~ 100001; 99999 is close to the centre 100000
+# but 100000 is not close to the centre 99999; 0 ~ 1e-9; an infinite centre matches every finite neighbour
+AREA_CLOSE = [1.0, 1.000001, 1.00001, 1.00002, 1.0 + 2.0 ** -20, 100000.0, 100001.0, 99999.0, 0.0, 1e-9, -1e-9,
+              INF, -INF, 2.0]
+
+
+def area_lay(a, layout):
+    a = np.ascontiguousarray(a)
+    h, w = a.shape
+    if layout == "F":
+        return np.asfortranarray(a)
+    if layout == "T":
+        return np.ascontiguousarray(a.T).T
+    if layout == "strided":
+        big = np.full((2 * h + 1, 3 * w + 2), 99.0, dtype=a.dtype)
+        v = big[1::2, 2::3][:h, :w]
+        v[...] = a
+        return v
+    if layout == "neg":
+        return np.ascontiguousarray(a[::-1, ::-1])[::-1, ::-1]
+    if layout == "negrow":
+        return np.ascontiguousarray(a[::-1, :])[::-1, :]
+    return a
+
+
+def area_shape(rng, h, w):
+    """0/1 shapes whose first-pass labels merge late"""
+    kind = rng.choice(["comb_down", "comb_up", "u", "s", "checker", "stripes_d", "rings", "snake", "trident", "teeth"])
+    a = np.zeros((h, w), dtype=np.float64)
+    if kind == "comb_down":
+        a[:, ::2] = 1
+        a[h - 1, :] = 1
+    elif kind == "comb_up":
+        a[:, ::2] = 1
+        a[0, :] = 1
+    elif kind == "u":
+        a[:, 0] = 1
+        a[:, w - 1] = 1
+        a[h - 1, :] = 1
+    elif kind == "s":
+        a[::2, :] = 1
+        for k in range(1, h, 2):
+            a[k, (w - 1) if (k // 2) % 2 == 0 else 0] = 1
+    elif kind == "checker":
+        a = (np.add.outer(np.arange(h), np.arange(w)) % 2).astype(np.float64)
+    elif kind == "stripes_d":
+        a = (np.add.outer(np.arange(h), np.arange(w)) % 3 == 0).astype(np.float64)
+    elif kind == "rings":
+        for k in range(0, (min(h, w) + 1) // 2):
+            a[k:h - k, k:w - k] = k % 2
+    elif kind == "snake":
+        for k in range(min(h, w)):
+            a[h - 1 - k, k] = 1
+            if k + 1 < w:
+                a[h - 1 - k, k + 1] = 1
+    elif kind == "trident":            # diagonal arms meeting in one cell: [high, low, other] captured in pass 2
+        a[:] = 9
+        y, x = h - 1 - rng.randrange(0, max(1, h // 3)), w // 2
+        for t in range(0, h):
+            for (yy, xx) in ((y - t, x - t), (y - t, x + t)):
+                if 0 <= yy < h and 0 <= xx < w and rng.random() < 0.9:
+                    a[yy, xx] = 0
+        a[:, 0] = 0
+        a[h - 1, 0:x] = 0
+    else:                              # teeth of random length hanging from isolated cells, joined at the bottom
+        a[h - 1, :] = 1
+        for xx in range(0, w, 2):
+            a[rng.randrange(0, h):, xx] = 1
+    if rng.random() < 0.5:
+        a = a[:, ::-1].copy()
+    if rng.random() < 0.4:
+        a = a[::-1, :].copy()
+    return kind, a
+
+
+def area_nan(rng, a):
+    """NaN placement: frame, corners, a row / column, a diagonal, scattered, everything, everything but one"""
+    h, w = a.shape
+    kind = rng.choice(["frame", "corners", "row", "col", "diag", "scatter", "scatter", "all", "all_but_one", "first"])
+    if kind == "frame":
+        a[0, :] = a[h - 1, :] = NAN
+        a[:, 0] = a[:, w - 1] = NAN
+    elif kind == "corners":
+        for (y, x) in ((0, 0), (0, w - 1), (h - 1, 0), (h - 1, w - 1)):
+            a[y, x] = NAN
+    elif kind == "row":
+        a[rng.randrange(h), :] = NAN
+    elif kind == "col":
+        a[:, rng.randrange(w)] = NAN
+    elif kind == "diag":
+        for k in range(min(h, w)):
+            a[k, k] = NAN
+    elif kind == "scatter":
+        p = rng.choice([0.1, 0.3, 0.6])
+        for y in range(h):
+            for x in range(w):
+                if rng.random() < p:
+                    a[y, x] = NAN
+    elif kind == "all":
+        a[:] = NAN
+    elif kind == "all_but_one":
+        v = a[h // 2, w // 2]
+        a[:] = NAN
+        a[rng.randrange(h), rng.randrange(w)] = 1.0 if v != v else v
+    else:
+        a[0, 0] = NAN
+    return kind
+
+
+def gen_mean(rng):
+    data = grid(rng, [0.0, 1.0, 2.0, 3.0, -1.0, 0.5, NAN, NAN, INF], 5, 5)
+    ex = rng.choice([[NAN], [NAN], [], [0.0], [NAN, 1.0], [INF], [2.0, 3.0]])
+    return dict(data=data.tolist(), ex=ex)
+
+
+def line_mean(c):
+    return f"af.data={farr(c['data'])} af.excludes={farr(c['ex'])}"
+
+
+def real_mean(c):
+    f = mod("xrspatial.focal")._mean_numpy
+    d, ex = np.array(c["data"], dtype=np.float64), np.array(c["ex"], dtype=np.float64)
+    out = f(d, ex)
+    return ["ret", farr(out), farr(d), farr(ex)]
+
+
+def gen_apply(rng):
+    kh, kw = rng.choice([1, 3, 3, 5]), rng.choice([1, 3, 3, 5])
+    data = grid(rng, [0.0, 1.0, 2.0, 3.0, -1.0, 0.5, 8.0, NAN, NAN], 6, 6)
+    pool = [1.0, 1.0, 1.0, 0.0, 0.0] + ([2.0, 0.5, -1.0, NAN] if rng.random() < 0.3 else [])
+    kernel = np.array(pick_vals(rng, pool, kh * kw)).reshape(kh, kw)
+    return dict(data=data.tolist(), kernel=kernel.tolist())
+
+
+def line_apply(c):
+    return f"af.data={farr(c['data'])} af.kernel={farr(c['kernel'])}"
+
+
+def real_apply(fname):
+    def real(c):
+        fo = mod("xrspatial.focal")
+        d, k = np.array(c["data"], dtype=np.float64), np.array(c["kernel"], dtype=np.float64)
+        out = fo._apply_numpy(d, k, getattr(fo, fname))
+        return ["ret", farr(out), farr(d), farr(k)]
+    return real
+
+
 def gen_area(rng):
-    kind = rng.random()
-    vals = [0.0, 1.0, 1.0, 2.0] if kind < 0.5 else [1.0, 2.0] if kind < 0.8 else [0.0, 1.0, 2.0, 3.0, 1.00000001, 1.5]
-    pool = vals + ([NAN] if rng.random() < 0.5 else [])
-    data = grid(rng, pool, 5, 6)
-    return dict(data=data.tolist(), n=rng.choice([4, 8]))
+    mode = rng.choice(["rand", "rand", "shape", "shape", "many", "close", "close", "line", "nan"])
+    h, w = rng.randint(1, 7), rng.randint(1, 8)
+    tag = mode
+    if mode == "line":
+        (h, w) = (1, rng.randint(1, 14)) if rng.random() < 0.5 else (rng.randint(1, 14), 1)
+        a = np.array(pick_vals(rng, [0.0, 1.0, 1.0, 2.0, 1.000001], h * w), dtype=np.float64).reshape(h, w)
+    elif mode == "shape":
+        h, w = max(h, 2), max(w, 2)
+        kind, a = area_shape(rng, h, w)
+        tag = "shape:" + kind
+        if rng.random() < 0.3:
+            a = a * 2 - 1
+    elif mode == "many":               # many provisional labels: alternating rows / isolated cells with bridges
+        h, w = rng.randint(4, 9), rng.randint(6, 12)
+        a = np.zeros((h, w), dtype=np.float64)
+        if rng.random() < 0.5:
+            a[::2, ::2] = 1
+            for _ in range(rng.randint(0, 6)):
+                a[rng.randrange(h), rng.randrange(w)] = 1
+        else:
+            a[:, ::2] = 1
+            for _ in range(rng.randint(1, 5)):
+                a[rng.randrange(h), :] = rng.choice([0.0, 1.0])
+        if rng.random() < 0.5:
+            a[h - 1, :] = 1
+    elif mode == "close":
+        pool = rng.sample(AREA_CLOSE, rng.randint(2, 5))
+        a = np.array(pick_vals(rng, pool, h * w), dtype=np.float64).reshape(h, w)
+    else:
+        kind = rng.random()
+        vals = [0.0, 1.0, 1.0, 2.0] if kind < 0.5 else [1.0, 2.0] if kind < 0.8 else [0.0, 1.0, 2.0, 3.0, 1.00000001, 1.5]
+        a = np.array(pick_vals(rng, vals, h * w), dtype=np.float64).reshape(h, w)
+    if mode == "nan" or rng.random() < 0.3:
+        tag += "+nan:" + area_nan(rng, a)
+    return dict(data=a.tolist(), n=rng.choice([4, 8]), lay=rng.choice(AREA_LAYOUTS), tag=tag)
 
 
 def line_area(c):
@@ -440,7 +886,7 @@ def line_area(c):
 
 def real_area(c):
     f = mod("xrspatial.zonal")._area_connectivity
-    d = np.array(c["data"], dtype=np.float64)
+    d = area_lay(np.array(c["data"], dtype=np.float64), c.get("lay", "C"))
     out = f(d, c["n"])
     return ["ret", farr(out), farr(d)]
 
@@ -585,7 +1031,8 @@ def real_vs(c):
 
 
 # programs whose numeric results go through libm / float32 rounding: compared within this relative tolerance
-TOL = {"calcDirection": 1e-6, "processNumpy": 1e-6}
+TOL = {"calcDirection": 1e-6, "processNumpy": 1e-6, "applyMean": 1e-6, "applySum": 1e-6, "applyMin": 1e-6,
+       "applyMax": 1e-6, "applyRange": 1e-6, "applyStd": 2e-6, "applyVar": 2e-6}
 
 SPECS = {
     "cpuBin": (gen_cpu_bin, line_cpu_bin, real_cpu_bin),
@@ -603,6 +1050,14 @@ SPECS = {
     "processNumpy": (gen_process, line_process, real_process),
     "calcDirection": (gen_direction, line_direction, real_direction),
     "areaConnectivity": (gen_area, line_area, real_area),
+    "meanNumpy": (gen_mean, line_mean, real_mean),
+    "applyMean": (gen_apply, line_apply, real_apply("_calc_mean")),
+    "applySum": (gen_apply, line_apply, real_apply("_calc_sum")),
+    "applyMin": (gen_apply, line_apply, real_apply("_calc_min")),
+    "applyMax": (gen_apply, line_apply, real_apply("_calc_max")),
+    "applyRange": (gen_apply, line_apply, real_apply("_calc_range")),
+    "applyStd": (gen_apply, line_apply, real_apply("_calc_std")),
+    "applyVar": (gen_apply, line_apply, real_apply("_calc_var")),
     "vsInsert": (gen_vs("insert"), line_vs, real_vs),
     "vsDelete": (gen_vs("delete"), line_vs, real_vs),
     "vsSearch": (gen_vs("search"), line_vs, real_vs),
@@ -704,7 +1159,12 @@ def stream(r, progs, n, driver=None):
         replies = driver.ask(lines)
         for c, rv, rep in zip(cases, reals, replies):
             key = dict(prog=prog, case=c)
-            r.case(key, desc=f"il:{prog} {str(c)[:120]}", nontrivial=True, tags=[f"il:{prog}"])
+            tags = [f"il:{prog}"]
+            if isinstance(c, dict):
+                if "cls" in c:
+                    tags.append(f"il:{prog}:{c['cls']}")
+                tags += [f"il:{prog}:{t}" for t in c.get("tags", [])]
+            r.case(key, desc=f"il:{prog} {str(c)[:120]}", nontrivial=True, tags=tags)
             if rv[0] == "skip":
                 continue
             if rv[0] == "err":
